@@ -1,6 +1,8 @@
 package vc
 
 import (
+	"runtime/debug"
+	"os"
 	"fmt"
 	"go/token"
 	"go/types"
@@ -48,6 +50,7 @@ type State struct {
 	defers   map[*Frame][]deferred
 	pcSeen   map[string]bool
 	localCells map[string][]smt.Term // heap key -> refs of local variables of the running frames (escaping Allocs)
+	atLock   *State // the state right after the last acquisition of a monitor lock (nil: none acquired yet)
 }
 
 func (st *State) clone() *State {
@@ -62,6 +65,7 @@ func (st *State) clone() *State {
 		unknownCalls: st.unknownCalls,
 		lazyBase: st.lazyBase,
 		tiAllocs: append([]tiAlloc(nil), st.tiAllocs...),
+		atLock: st.atLock,
 	}
 	for k, v := range st.locals {
 		n.locals[k] = v
@@ -276,11 +280,21 @@ func (e *Engine) loadPtr(st *State, p *Ptr) Value {
 		return e.subValue(v, p.Root, p.Path)
 	case PtrHeap:
 		var ls []smt.Term
-		for _, l := range e.leaves(t) {
-			arr := e.heapArr(st, objKeyPrefix(p.Root)+prefix+l.Path, smt.Ref, l.Sort)
+		var olds []int
+		for i, l := range e.leaves(t) {
+			key := objKeyPrefix(p.Root) + prefix + l.Path
+			arr := e.heapArr(st, key, smt.Ref, l.Sort)
 			ls = append(ls, smt.Select(arr, p.Base))
+			if l.Sort == smt.Ref && e.unchangedSinceEntry(st, key, arr) {
+				olds = append(olds, i)
+			}
 		}
-		return e.named(st, "ld", Value{T: t, L: ls})
+		out := e.named(st, "ld", Value{T: t, L: ls})
+		for _, i := range olds {
+			// the array has not been written since the unit started: what an object that existed then holds was allocated before
+			st.assume(smt.Implies(smt.IntBin("<=", e.stamp(p.Base), e.curUnit.entry.clock), smt.IntBin("<=", e.stamp(out.L[i]), e.curUnit.entry.clock)))
+		}
+		return out
 	case PtrElem:
 		var ls []smt.Term
 		for _, l := range e.leaves(t) {
@@ -292,11 +306,26 @@ func (e *Engine) loadPtr(st *State, p *Ptr) Value {
 	panic("bad ptr kind")
 }
 
+// unchangedSinceEntry reports whether arr, the current array of a heap key, is still the array of the unit's entry state.
+func (e *Engine) unchangedSinceEntry(st *State, key string, arr smt.Term) bool {
+	if e.curUnit == nil || e.curUnit.entry == nil || st == e.curUnit.entry {
+		return false
+	}
+	hk, ok := e.heapKeys[key]
+	if !ok {
+		return false
+	}
+	return e.heapArr(e.curUnit.entry, key, hk.Idx, hk.Elem).S == arr.S
+}
+
 // named gives names to the leaves of a loaded value and records type invariants.
 func (e *Engine) named(st *State, hint string, v Value) Value {
 	out := Value{T: v.T, L: make([]smt.Term, len(v.L))}
 	for i, l := range v.L {
 		out.L[i] = e.ctx.Name(hint, l)
+		if d := os.Getenv("GOVC_DBG"); d != "" && out.L[i].S == d {
+			fmt.Fprintf(os.Stderr, "DBG named %s = %s noname=%d\n%s\n", d, l.S, e.ctx.NoName, debug.Stack())
+		}
 	}
 	e.assumeValid(st, out)
 	return out
@@ -351,6 +380,9 @@ func (e *Engine) newRef(st *State, hint string) smt.Term {
 	nc := e.ctx.Name("clk", smt.IntBin("+", st.clock, smt.IntLit(1)))
 	st.assume(smt.Eq(e.stamp(r), nc))
 	st.assume(smt.Not(smt.Eq(r, e.null())))
+	if e.curUnit != nil && e.curUnit.Spec != nil && len(e.curUnit.Spec.Monitors) > 0 {
+		st.assume(smt.Not(smt.App(smt.Bool, e.ctx.Fun("foreign", []smt.Sort{smt.Ref}, smt.Bool), r)))
+	}
 	st.clock = nc
 	return r
 }
